@@ -2,6 +2,7 @@
 import contextlib
 import io
 import itertools
+import os
 import re
 import signal
 from urllib.parse import urlparse, urljoin
@@ -81,10 +82,15 @@ def monolith(order=None, sorder=None, torder=None):
 def split(kind, base="http://h.example/w/"):
     """file cuts of the same definitions; returns dict name -> text (root is root.wsdl)"""
     def loc(name, style):
+        if style == "dot":
+            return "./" + name if "/" not in name else name.split("/")[0] + "/./" + name.split("/", 1)[1]      # non-canonical spelling of the same place
         return name if style == "rel" else base + name
     files = {}
-    style = "abs" if kind.endswith("-abs") else "rel"
-    k = kind[:-4] if kind.endswith("-abs") else kind
+    style = "abs" if kind.endswith("-abs") else ("dot" if kind.endswith("-dot") else "rel")
+
+    def ro(rel, absolute):
+        return rel if style == "rel" else ("./" + rel if style == "dot" else absolute)
+    k = kind[:-4] if kind.endswith(("-abs", "-dot")) else kind
     if k == "xsd-import-u":
         files["u.xsd"] = schema("urn:u", SCHEMA_U_DECLS)
         types = schema("urn:t", SCHEMA_T_DECLS, '<xsd:import namespace="urn:u" schemaLocation="%s"/>' % loc("u.xsd", style))
@@ -98,12 +104,12 @@ def split(kind, base="http://h.example/w/"):
         files["sub/u.xsd"] = schema("urn:u", SCHEMA_U_DECLS)
         files["sub/deep/t3.xsd"] = schema("urn:t", SCHEMA_T_DECLS[3:5])
         files["sub/t2.xsd"] = schema("urn:t", SCHEMA_T_DECLS[:3], '<xsd:import namespace="urn:u" schemaLocation="%s"/><xsd:include schemaLocation="%s"/>'
-                                     % ("u.xsd" if style == "rel" else base + "sub/u.xsd", "deep/t3.xsd" if style == "rel" else base + "sub/deep/t3.xsd"))
+                                     % (ro("u.xsd", base + "sub/u.xsd"), ro("deep/t3.xsd", base + "sub/deep/t3.xsd")))
         types = schema("urn:t", SCHEMA_T_DECLS[5:], '<xsd:include schemaLocation="%s"/>' % loc("sub/t2.xsd", style))
         top = ["<types>%s</types>" % types] + MESSAGES + [PORTTYPE] + BINDINGS + [SERVICE]
     elif k == "wsdl-subdir":
         files["sub/u.xsd"] = schema("urn:u", SCHEMA_U_DECLS)
-        files["sub/abstract.wsdl"] = ((DEFS_OPEN % "urn:t") + "<types>%s</types>" % schema("urn:t", SCHEMA_T_DECLS, '<xsd:import namespace="urn:u" schemaLocation="%s"/>' % ("u.xsd" if style == "rel" else base + "sub/u.xsd"))
+        files["sub/abstract.wsdl"] = ((DEFS_OPEN % "urn:t") + "<types>%s</types>" % schema("urn:t", SCHEMA_T_DECLS, '<xsd:import namespace="urn:u" schemaLocation="%s"/>' % ro("u.xsd", base + "sub/u.xsd"))
                                       + "".join(MESSAGES) + PORTTYPE + "</definitions>")
         top = ['<import namespace="urn:t" location="%s"/>' % loc("sub/abstract.wsdl", style)] + BINDINGS + [SERVICE]
     elif k == "xsd-include-cycle":
@@ -118,7 +124,12 @@ def split(kind, base="http://h.example/w/"):
         top = ["<types>%s</types>" % types] + MESSAGES + [PORTTYPE] + BINDINGS + [SERVICE]
     else:
         all_types = "<types>%s%s</types>" % (schema("urn:t", SCHEMA_T_DECLS, '<xsd:import namespace="urn:u"/>'), schema("urn:u", SCHEMA_U_DECLS))
-        if k == "wsdl-import-abstract":
+        if k == "wsdl-types-split":
+            # the root keeps schema T inline; schema U (referenced by T) lives in the wsdl:types of an imported WSDL
+            files["udefs.wsdl"] = (DEFS_OPEN % "urn:u") + "<types>%s</types>" % schema("urn:u", SCHEMA_U_DECLS) + "</definitions>"
+            top = (['<import namespace="urn:u" location="%s"/>' % loc("udefs.wsdl", style), "<types>%s</types>" % schema("urn:t", SCHEMA_T_DECLS, '<xsd:import namespace="urn:u"/>')]
+                   + MESSAGES + [PORTTYPE] + BINDINGS + [SERVICE])
+        elif k == "wsdl-import-abstract":
             files["abstract.wsdl"] = (DEFS_OPEN % "urn:t") + all_types + "".join(MESSAGES) + PORTTYPE + "</definitions>"
             top = ['<import namespace="urn:t" location="%s"/>' % loc("abstract.wsdl", style)] + BINDINGS + [SERVICE]
         elif k == "wsdl-chain":
@@ -159,7 +170,7 @@ def split(kind, base="http://h.example/w/"):
 
 
 SPLITS = ["xsd-import-u", "xsd-include-t", "xsd-subdir", "wsdl-subdir", "xsd-include-cycle", "xsd-import-cycle", "wsdl-import-abstract", "wsdl-chain", "wsdl-chain-3",
-          "wsdl-two-imports-same-ns", "wsdl-two-hops", "wsdl-cycle-aba", "wsdl-cycle-abca", "wsdl-cycle-against"]
+          "wsdl-two-imports-same-ns", "wsdl-two-hops", "wsdl-cycle-aba", "wsdl-cycle-abca", "wsdl-cycle-against", "wsdl-types-split"]
 
 
 def _zeep():
@@ -170,6 +181,34 @@ def _zeep():
 
 class Timeout(Exception):
     pass
+
+
+def load_fs(files):
+    """the documents written to a scratch directory and loaded by path"""
+    import tempfile
+    import shutil
+    z = _zeep()
+    d = tempfile.mkdtemp(prefix="c09fs_")
+
+    def handler(signum, frame):
+        raise Timeout()
+    old = signal.signal(signal.SIGALRM, handler)
+    signal.alarm(20)
+    try:
+        for name, text in files.items():
+            path = os.path.join(d, name)
+            os.makedirs(os.path.dirname(path), exist_ok=True)
+            with open(path, "w") as f:
+                f.write(text)
+        c = z.Client(os.path.join(d, "root.wsdl"))
+        buf = io.StringIO()
+        with contextlib.redirect_stdout(buf):
+            c.wsdl.dump()
+        return c, buf.getvalue()
+    finally:
+        signal.alarm(0)
+        signal.signal(signal.SIGALRM, old)
+        shutil.rmtree(d, ignore_errors=True)
 
 
 def load(files, base="http://h.example/w/"):
@@ -333,19 +372,28 @@ def run(ctx):
     variants.append(("types-order", dict(torder=[1, 0]), monolith(torder=[1, 0])))
     # (d) file cuts
     for k in SPLITS:
-        for style in ("", "-abs"):
+        for style in ("", "-abs", "-dot"):
             variants.append(("split", dict(split=k + style), split(k + style)))
+    # (e) the same cuts as files on disk (relative, dotted and absolute paths): locations are file paths there
+    for k in ("xsd-include-cycle", "xsd-import-cycle", "wsdl-cycle-aba", "xsd-subdir", "wsdl-chain"):
+        for style in ("", "-dot"):
+            variants.append(("split", dict(split=k + style, fs=True), split(k + style)))
     pending = []
     for kind, desc, files in variants:
         case = dict(variant=kind, **desc)
         res.case(key=(kind, str(desc)), nontrivial=True)
         res.count("variant:" + kind)
         known = "K4" if desc.get("split", "").startswith("wsdl-cycle-against") else None
-        moved_bindings = desc.get("split", "").split("-abs")[0] in ("wsdl-chain", "wsdl-chain-3", "wsdl-two-imports-same-ns", "wsdl-two-hops", "wsdl-cycle-abca")
+        moved_bindings = desc.get("split", "").replace("-abs", "").replace("-dot", "") in ("wsdl-chain", "wsdl-chain-3", "wsdl-two-imports-same-ns", "wsdl-two-hops", "wsdl-cycle-abca")
         try:
-            c, dump = load(files)
+            c, dump = load_fs(files) if desc.get("fs") else load(files)
+            if desc.get("fs"):
+                res.count("loaded-from-disk")
         except Timeout:
             res.failures.append(dict(what="loading did not terminate within 20 s", case=case))
+            continue
+        except RecursionError:
+            res.failures.append(dict(what="loading ended in RecursionError (an already loaded document was not recognised)", case=case))
             continue
         except Exception as e:  # noqa
             f = dict(what="loading raised %s: %s" % (type(e).__name__, str(e)[:150]), case=case)
@@ -388,7 +436,7 @@ def run(ctx):
     res.rule = ("one generated WSDL (two schemas with forward and cross-namespace references, 3 messages, a portType with 2 operations, 2 "
                 "bindings, a service with 2 ports) in: permutations of the top-level definitions (all 120 orders of the first five in the "
                 "thorough tier, sampled otherwise, plus random full permutations), permutations of the schema's declarations, swapped "
-                "schemas in wsdl:types, and 14 file cuts x relative/absolute locations (xsd:import, xsd:include, documents in sub-directories referring relatively, two hops in one namespace, include cycle, import "
+                "schemas in wsdl:types, and 15 file cuts x relative / absolute / dotted (non-canonical) locations, five of them also as files on disk (xsd:import, xsd:include, documents in sub-directories referring relatively, two hops in one namespace, include cycle, import "
                 "cycle, wsdl:import, chains of 2 and 3, two imports of one namespace, A->B->A, A->B->C->A, a cycle referenced against its "
                 "direction). distinct = distinct variant")
     return res
